@@ -333,6 +333,18 @@ class Extract:
             p = f.__self__; qn = f.__func__.__qualname__
             nm = p.instanceName()
             return (qn + ('@' + nm if nm else ''), p, qn)
+        if not hasattr(f, 'qn') and getattr(f, '__closure__', None):
+            # a wrapper this harness does not know (the library wrapped the event function once more): look through it
+            for c in f.__closure__:
+                try:
+                    v = c.cell_contents
+                except ValueError:
+                    continue
+                if callable(v) and v is not f and (hasattr(v, '__func__') or hasattr(v, 'qn') or hasattr(v, '_orig') or getattr(v, '__closure__', None)):
+                    try:
+                        return self.hkey(v)
+                    except Exception:
+                        continue
         p = getattr(f, 'proc', None)
         return (f.qn, p, f.qn)
 
